@@ -791,6 +791,24 @@ def cache_oracles(ctx, prop):
         if tr.panic or len(tr.steps) != len(tr.ops):
             v.append(([c.id], "cache operation panicked"))
             continue
+        if c.id.startswith("ks"):
+            # sparse history (no observation between the operations): judged on what the operations returned.
+            # C06: a lookup returns nothing or exactly the bytes of the latest successful insertion under that key
+            if prop == "C06":
+                latest_v = {}
+                for opi, (op, st) in enumerate(zip(tr.ops, tr.steps)):
+                    f = op.split(":")
+                    if f[0] == "i" and st["r"].split(",")[0] == "0":
+                        latest_v[int(f[1])] = unhex(f[2])
+                    elif f[0] == "g":
+                        p = st["r"].split(",")
+                        if p[0] == "1":
+                            got = bytes(int(x) for x in p[1:])
+                            if latest_v.get(int(f[1])) != got:
+                                v.append(([c.id], "capacity %d, operation #%d (%s) with no lookups other than those of the history: get returns %s, the latest successful insertion under that key stored %s" % (
+                                    tr.cap, opi, op, list(got), list(latest_v[int(f[1])]) if int(f[1]) in latest_v else None)))
+                                break
+            continue
         hist = []          # successful insertions (key, value)
         latest = {}        # key -> index in hist
         empty_stored = False
